@@ -237,12 +237,14 @@ impl<'a> LspServer<'a> {
             match Self::cast_notification::<notification::DidChangeTextDocument>(notification) {
                 Ok(params) => {
                     trace!("DidChangeTextDocument {}", params.text_document.uri);
-                    let contents = params.content_changes.into_iter().next().unwrap().text;
                     let uri = params.text_document.uri;
                     let version = params.text_document.version;
 
-                    self.project
-                        .change_text_document(&uri, contents.as_str().to_string());
+                    // Documents are synchronized in full, so the last change is the new content
+                    // (and an empty list of changes leaves the document as it is).
+                    if let Some(change) = params.content_changes.into_iter().last() {
+                        self.project.change_text_document(&uri, change.text);
+                    }
                     let diagnostics = self.project.semantic(&uri);
 
                     self.send_notification::<PublishDiagnostics>(PublishDiagnosticsParams {
